@@ -86,8 +86,11 @@ def readSig (line : Str) : Option SigEntity :=
     ((ty, nm), d)
   let afterWords := (splitOnChar ' ' (after.filter (· ≠ ';'))).filter (fun (w : Str) => !w.isEmpty)
   let afterWords := afterWords.filter (fun w => w ≠ L "{}")
-  let cav := if afterWords.head? = some (L "const") then L "const" else []
-  let tail := if cav.isEmpty then afterWords else afterWords.drop 1
+  -- the cv-/ref-/noexcept qualifiers belong to the entity (declaration and definition agree on them);
+  -- `override`, `final` and `= …` are declaration-only
+  let declOnly := fun (w : Str) => w = L "override" || w = L "final"
+  let cav := join (L " ") ((afterWords.takeWhile (· ≠ L "=")).filter (fun w => !declOnly w))
+  let tail := afterWords.filter declOnly ++ afterWords.dropWhile (· ≠ L "=")
   some { name, owner, params := ps.map (·.1), defaults := ps.map (·.2), cav, tail,
          head := (splitOnChar ' ' headText).filter (fun (w : Str) => !w.isEmpty) }
 
